@@ -1,6 +1,7 @@
 from speclib import *
 from spec.real import *
 from spec.floats import *
+from spec.ctx import *
 from fpy2.number.round import RoundingMode
 
 
@@ -38,6 +39,7 @@ class MPFloatContext__round_at(Contract):
     params = {'self': 'MPFloatContext', 'x': 'RealFloat | Float', 'n': 'int | None', 'exact': 'bool'}
     returns = 'Float'
     properties = ['C01']
+    binds = {'result._ctx': 'self'}
 
     def pre(self, x, n, exact):
         return {
@@ -46,48 +48,102 @@ class MPFloatContext__round_at(Contract):
         }
 
     def post(self, x, n, exact, result):
-        r = result
-        isf = cls_name(x) == 'Float'
-        nan = isf and x._isnan
-        inf = isf and x._isinf and not x._isnan
-        xr = x._real if isf else x
-        fin = not nan and not inf
-        nz = fin and xr._c != 0
-        ns = round_nstar(xr, self.pmax, n)
-        R = rnd_at(xr, self.pmax, ns, self.rm)
-        return {
-            'ctx': same_obj(r._ctx, self),
-            # K5 special values
-            'nan_enabled': implies(nan and self.enable_nan, r._isnan and not r._isinf),
-            'nan_subst': (same_real(r._real, self.nan_value._real) and r._isnan == self.nan_value._isnan
-                          and r._isinf == self.nan_value._isinf) if (nan and not self.enable_nan and self.nan_value is not None) else True,
-            'inf_enabled': implies(inf and self.enable_inf, r._isinf and not r._isnan and r._real._s == x._real._s),
-            'inf_subst': (r._real._s == x._real._s and r._real._exp == self.inf_value._real._exp
-                          and r._real._c == self.inf_value._real._c and r._isnan == self.inf_value._isnan
-                          and r._isinf == self.inf_value._isinf) if (inf and not self.enable_inf and self.inf_value is not None) else True,
-            # K2 zero keeps its sign, no flags
-            'zero': implies(fin and xr._c == 0, fl_finite(r) and r._real._c == 0 and r._real._s == xr._s and flags_clear(r._real)),
-            # K2/K3 finite nonzero: the correctly rounded value with truthful inexact flag
-            'finite': implies(nz, fl_finite(r)),
-            'sign': implies(nz, r._real._s == xr._s),
-            'exp': implies(nz, r._real._exp == R[0]),
-            'c': implies(nz, r._real._c == R[1]),
-            'inexact': implies(nz, r._real._flags.inexact == R[2]),
-            'no_overflow': implies(nz, not r._real._flags.overflow),
-            # K1 member of the format
-            'member_p': implies(nz, bl(r._real._c) <= self.pmax),
-            'member_n': implies(nz, r._real._exp > n) if n is not None else True,
-        }
+        return mpf_post(self, x, n, exact, result)
 
     def raises(self, x, n, exact):
-        isf = cls_name(x) == 'Float'
-        nan = isf and x._isnan
-        inf = isf and x._isinf and not x._isnan
-        xr = x._real if isf else x
-        fin = not nan and not inf
+        return mpf_raises(self, x, n, exact)
+
+
+class MPFloatContext_round(Contract):
+    target = 'fpy2.number.context.mp_float:MPFloatContext.round'
+    params = {'self': 'MPFloatContext', 'x': 'RealFloat | Float', 'exact': 'bool'}
+    returns = 'Float'
+    properties = ['C01']
+    binds = {'result._ctx': 'self'}
+
+    def pre(self, x, exact):
         return {
-            'ValueError': (nan and not self.enable_nan and self.nan_value is None)
-                          or (inf and not self.enable_inf and self.inf_value is None)
-                          or (fin and xr._c != 0 and exact
-                              and rnd_at(xr, self.pmax, round_nstar(xr, self.pmax, n), self.rm)[2]),
+            'pmax': self.pmax >= 1,
+            'deterministic': self.num_randbits is not None and self.num_randbits == 0,
+        }
+
+    def post(self, x, exact, result):
+        return mpf_post(self, x, None, exact, result)
+
+    def raises(self, x, exact):
+        return mpf_raises(self, x, None, exact)
+
+
+class MPFloatContext_round_at(Contract):
+    target = 'fpy2.number.context.mp_float:MPFloatContext.round_at'
+    params = {'self': 'MPFloatContext', 'x': 'RealFloat | Float', 'n': 'int', 'exact': 'bool'}
+    returns = 'Float'
+    properties = ['C01']
+    binds = {'result._ctx': 'self'}
+
+    def pre(self, x, n, exact):
+        return {
+            'pmax': self.pmax >= 1,
+            'deterministic': self.num_randbits is not None and self.num_randbits == 0,
+        }
+
+    def post(self, x, n, exact, result):
+        return mpf_post(self, x, n, exact, result)
+
+    def raises(self, x, n, exact):
+        return mpf_raises(self, x, n, exact)
+
+
+class MPFloatContext_round_integer(Contract):
+    target = 'fpy2.number.context.context:Context.round_integer'
+    params = {'self': 'MPFloatContext', 'x': 'RealFloat | Float'}
+    returns = 'Float'
+    properties = ['C01']
+    inline = True            # one contract per receiver class; never used modularly
+    binds = {'result._ctx': 'self'}
+
+    def pre(self, x):
+        return {
+            'deterministic': self.num_randbits is not None and self.num_randbits == 0,
+        }
+
+    def post(self, x, result):
+        return mpf_post(self, x, -1, False, result)
+
+    def raises(self, x):
+        return mpf_raises(self, x, -1, False)
+
+
+class MPFloatContext___init__(Contract):
+    target = 'fpy2.number.context.mp_float:MPFloatContext.__init__'
+    params = {'self': 'MPFloatContext', 'pmax': 'int', 'rm': 'RoundingMode', 'num_randbits': 'int | None',
+              'rng': 'RNG | None', 'enable_nan': 'bool', 'enable_inf': 'bool',
+              'nan_value': 'Float | None', 'inf_value': 'Float | None'}
+    returns = 'None'
+    properties = ['C01']
+    binds = {'self.nan_value': 'nan_value', 'self.inf_value': 'inf_value', 'self.rng': 'rng'}
+
+    def post(self, pmax, rm, num_randbits, rng, enable_nan, enable_inf, nan_value, inf_value, result):
+        return {
+            'inv_pmax': self.pmax >= 1,
+            'pmax': self.pmax == pmax,
+            'rm': self.rm.name == rm.name,
+            'num_randbits': (self.num_randbits is None) if num_randbits is None
+                            else (self.num_randbits is not None and self.num_randbits == num_randbits),
+            'enable_nan': self.enable_nan == enable_nan,
+            'enable_inf': self.enable_inf == enable_inf,
+            'fmt': self._fmt.pmax == pmax and self._fmt.enable_nan == enable_nan and self._fmt.enable_inf == enable_inf,
+            # substitutes are members of the format
+            'nan_value_member': mpf_member(pmax, enable_nan, enable_inf, nan_value)
+                                if (nan_value is not None and not enable_nan) else True,
+            'inf_value_member': mpf_member(pmax, enable_nan, enable_inf, inf_value)
+                                if (inf_value is not None and not enable_inf) else True,
+        }
+
+    def raises(self, pmax, rm, num_randbits, rng, enable_nan, enable_inf, nan_value, inf_value):
+        bad_nan = (not enable_nan and not mpf_member(pmax, enable_nan, enable_inf, nan_value)) if nan_value is not None else False
+        bad_inf = (not enable_inf and not mpf_member(pmax, enable_nan, enable_inf, inf_value)) if inf_value is not None else False
+        return {
+            'TypeError': pmax < 1,
+            'ValueError': pmax >= 1 and (bad_nan or bad_inf),
         }
